@@ -274,6 +274,7 @@ func c13Run(c *fw.Case, n int) {
 		}
 		return sb.String()
 	}
+	var samples []string
 	for i := 0; i < n; i++ {
 		// build the operations
 		usePrefixTarget := r.Chance(1, 2)
@@ -457,6 +458,10 @@ func c13Run(c *fw.Case, n int) {
 		before := snapshot()
 		tx, err, returned := trySet(w, context.Background(), req)
 		c.Count("set_requests", 1)
+		if i < 4 && c.Index%24 == 0 {
+			samples = append(samples, fmt.Sprintf("limit=%d must-refuse=%q logged=%v answer=%v request=%v", limit, wantRefused, tx != nil, err, req))
+			c.Sample(samples)
+		}
 		if unclear && wantRefused == "" {
 			c.Count("requests_at_the_limit_without_verdict", 1)
 			continue
